@@ -2,7 +2,7 @@
    Only statements; proofs in ProofsX.v. *)
 From Verif Require Import Base.Lex Union.Model Union.ModelX Union.ProofsMap Union.ProofsBuf Union.ProofsX Union.ProofsSize Union.ProofsPropsX.
 
-Notation sorted := (dsorted false).
+(* `sorted` is ProofsMap's notation for `dsorted false`: strictly ascending keys *)
 
 (* The value log and staging stack of the extended buffer evolve exactly as Model.v's buffer (or not at all:
    rejected writes, flag updates, limits) — so C07_cleanup_restores, C07_release_keeps, C07_latest_write_wins,
@@ -134,6 +134,18 @@ Theorem C07_history : forall st k,
   (forall v, In v (x_history st k) <-> In (k, v) (b_log (x_b st))).
 Proof. exact C07_history_proof. Qed.
 Print Assumptions C07_history.
+
+(* What a value write does to the histories (beyond the definition of C07_history): the histories of all other keys
+   are untouched; the written key gets a new newest version, or — in-place overwrite — its newest version, which then
+   was a non-empty value of the same length, is REPLACED (that version is gone from the history, as in the code). *)
+Theorem C07_history_write : forall st b k v k2,
+  x_history st k2 = b_history (x_b st) k2 /\
+  (k2 <> k -> b_history (write true b k v) k2 = b_history b k2) /\
+  (b_history (write true b k v) k = v :: b_history b k \/
+   (b_history (write true b k v) k = v :: tl (b_history b k) /\
+    exists o, hd_error (b_history b k) = Some o /\ length o = length v /\ is_tomb o = false)).
+Proof. exact C07_history_write_proof. Qed.
+Print Assumptions C07_history_write.
 
 (* InspectStage(h) reports exactly the keys that have a value-log entry in level h or above (written since
    Staging h and not discarded), each key once, with its CURRENT value and flags. *)
